@@ -617,6 +617,8 @@ def r8_shared_objects(ctx):
     c08.r5_limit(sub, sub.fn(c08.PMP, "Multiprocessor.filter"))
     from . import c02
     c02.chunker_partitions(sub, "C01.R8")   # maxtasksperchunk only re-groups the tasks
+    c03.r13_evaluators_hold_no_generator(sub)   # an evaluator object shared by several triples in one process but pickled afresh per chunk for workers
+    c03.r12_copy_flag_owner(sub)
     for o in sub.obs:
         o.rule = "C01.R8"
         ctx.obs.append(o)
@@ -626,6 +628,7 @@ def r8_shared_objects(ctx):
 
 
 CONTROLS = [
+    ("RejectionCB keeps its generator", SEQ, M.insert_after("RejectionCB.__init__", M.text_has("self._seed"), "self._rng = CobaRandom(seed)"), "C01.R8"),
     ("copy flag by (env,lrn) pairs", PROC, M.replace_expr("MakeTasks.read", "Counter([l for _, l, _ in self._triples])", "Counter([l for _, l in set(((e, l) for e, l, _ in self._triples))])"), "C01.R8"),
     ("delete seed before run", EXP, M.insert_before("Experiment.run", M.text_has("CobaContext.logger.log('Experiment Started')"),
                                                      "del CobaContext.store['experiment_seed']"), "C01.R1"),
